@@ -1,7 +1,7 @@
 HOOK_COMMITS = ["69b5feac"]
 FIX_COMMITS = ["1d9ec378", "304105e7", "df3a2e6c", "f7361866", "4009b9f0", "f51e7edb"]
 ENGINES = [
-    {"name": "tlc+harness", "path": "/verif/bin/check", "serves_properties": ["C01", "C02", "C04", "C05", "C06", "C07", "C08", "C09", "C11", "C15", "C19", "C20"],
+    {"name": "tlc+harness", "path": "/verif/bin/check", "serves_properties": ["C01", "C02", "C04", "C05", "C06", "C07", "C08", "C09", "C10", "C11", "C15", "C18", "C19", "C20"],
      "kind_free_text": "explicit TLA+ specification (spec/*.tla) checked with TLC; bound to the Rust code by a harness crate "
                        "(/verif/harness) that replays TLC-generated behaviours into mls-rs and records traces validated by TLC"},
 ]
@@ -54,6 +54,15 @@ CHECKS += [
     {"id": "C19", "category": "model_checking", "technique": _CORE + "; prior-epoch lookup and retention model",
      "text": "Late application messages of every age are delivered under retention 1, 2 and 3 with writes and reloads interleaved, on both providers: the implementation must decrypt exactly when the model's FindPrior finds the epoch (pending inserts, loaded updates, storage) and the sender's leaf still carries the sender's identity; stored epoch ids must equal the model.",
      "note": "see C01"},
+]
+
+CHECKS += [
+    {"id": "C10", "category": "model_checking", "technique": "TLA+ model of the RFC 9420 12.2 rule set with both filter strategies: exhaustive input enumeration in TLC (MC_props.tla) + replay of proposal-rich behaviours into mls-rs",
+     "text": "ApplyProposals models apply_resolved/batch_edit with the sender strategy (drop by-reference offenders) and the receiver strategy (fail); TLC enumerates every proposal list of length <= 3 (thorough 4) over 29 proposal variants x 3 committers and checks that what the sender keeps every receiver accepts to the same tree, that the kept list is legal, that by-value offenders fail the build and by-reference ones are dropped; behaviours with add/update/remove/PSK/resumption-PSK/GCE/re-init proposals, expired and identity-rejected key packages and same-leaf conflicts are replayed comparing build result, unused proposals, path flag, every receiver's outcome and tree. Known finding F12 is reported as KNOWN-FINDING.",
+     "note": "see C01; hash-map order of the proposal cache: at most one by-reference add / GCE per epoch and one by-reference remove or update per leaf in generated behaviours; custom proposals, external senders and new-member proposals are not generated yet"},
+    {"id": "C18", "category": "model_checking", "technique": _CORE + "; per-party PSK stores drawn by TLC",
+     "text": "Each behaviour fixes which party holds which value (none / a / b) for each external PSK id; commits inject external and resumption PSKs by value and by reference; exactly the members holding the committer's values and retaining the referenced epochs must reach the new epoch (same authenticator through the bijection), all others must reject with unchanged state; joiners need the same PSKs.",
+     "note": "see C01; sensitivity of the secret to nonce/order is covered only through agreement classes (two commits never share a secret id)"},
 ]
 
 _PENDING = "check not built yet in this round (see DESIGN.md section 10 build order); will be claimed once its TLA+ model and binding exist"
